@@ -19,7 +19,7 @@ def run_one(spec):
             if step[0] == "run":
                 r = sc.run(**step[1])
                 res["runs"].append({k: r[k] for k in ("rc", "hung", "wall")} | {"stderr_tail": r["stderr"][-1500:],
-                                   "stderr_has_error": any(w in r["stderr"] for w in ("ERROR", "Error", "error:")),
+                                   "stderr_has_error": bool(r["stderr"].strip()),   # any message at all: wording and log level are not part of a property
                                    "stderr_has_panic": "panicked at" in r["stderr"] or "stack overflow" in r["stderr"]})
             elif step[0] == "call":
                 step[1](sc)
